@@ -248,7 +248,30 @@ TrOsPbkdf2 == IsEv("os.pbkdf2") /\ LET ev == T[l] IN
   Step(objs, <<Pbkdf2(LAMBDA p, x : PbPrf(ev.kind, p, x), ev.pw, ev.salt, ev.count, ev.n), 1>>, <<ev.out, ev.guard>>)
 
 KdfNext == TrHkdfExtract \/ TrHkdfExpand \/ TrHkdfPoke \/ TrHkdfFree \/ TrOsHkdf \/ TrOsPbkdf2
-IsapNext == FALSE
+(* C06: ISAP pre-computed key objects                                      *)
+IsapV(sc) == CASE sc = "isap128" -> "128" [] sc = "isap128a" -> "128a" [] sc = "isap80pq" -> "80pq"
+IkSet(ev, pk) == Put(ev.obj, [kind |-> "isapkey", ke |-> pk.ke, ka |-> pk.ka])
+Pk(ev) == [ke |-> objs[ev.obj].ke, ka |-> objs[ev.obj].ka]
+
+TrIsapKeyInit == IsEv("isapkey.init") /\ LET ev == T[l]  pk == IsapKeyExpand(IsapV(ev.scheme), ev.k) IN
+  Step(IkSet(ev, pk), <<IsapSave(pk), 1>>, <<ev.saved, ev.save_same>>)
+TrIsapKeyLoad == IsEv("isapkey.load") /\ LET ev == T[l]  pk == IsapLoad(ev["in"]) IN
+  Step(IkSet(ev, pk), <<IsapSave(pk), 1>>, <<ev.saved, ev.save_same>>)
+\* Save, Encrypt, Decrypt: UNCHANGED key - the raw object bytes must be bit-identical afterwards
+TrIsapKeySave == IsEv("isapkey.save") /\ LET ev == T[l]  pk == Pk(ev) IN
+  Step(objs, <<IsapSave(pk), IsapSave(pk), 1, 1, 1>>, <<ev.out, ev.saved, ev.raw_same, ev.save_same, ev.guard>>)
+TrIsapKeyEnc == IsEv("isapkey.enc") /\ LET ev == T[l]  pk == Pk(ev)
+      ct == IsapEncPk(IsapV(ev.scheme), pk, ev.n, ev.ad, ev["in"]) IN
+  Step(objs, <<ct, Len(ev["in"]) + 16, IsapSave(pk), 1, 1, 1>>, <<ev.out, ev.clen, ev.saved, ev.raw_same, ev.save_same, ev.guard>>)
+TrIsapKeyDec == IsEv("isapkey.dec") /\ LET ev == T[l]  pk == Pk(ev) IN
+  IF Len(ev["in"]) < 16
+  THEN Step(objs, <<-1, IsapSave(pk), 1, 1>>, <<ev.ret, ev.saved, ev.raw_same, ev.guard>>)
+  ELSE LET r == IsapDecPk(IsapV(ev.scheme), pk, ev.n, ev.ad, ev["in"]) IN
+       IF r.ok THEN Step(objs, <<0, Len(ev["in"]) - 16, r.m, IsapSave(pk), 1, 1>>, <<ev.ret, ev.mlen, ev.out, ev.saved, ev.raw_same, ev.guard>>)
+       ELSE Step(objs, <<-1, 1, IsapSave(pk), 1, 1>>, <<ev.ret, ev.allzero, ev.saved, ev.raw_same, ev.guard>>)
+TrIsapKeyFree == IsEv("isapkey.free") /\ LET ev == T[l] IN Step(Del(ev.obj), <<>>, <<>>)
+
+IsapNext == TrIsapKeyInit \/ TrIsapKeyLoad \/ TrIsapKeySave \/ TrIsapKeyEnc \/ TrIsapKeyDec \/ TrIsapKeyFree
 PrngNext == FALSE
 MiscNext == FALSE
 
